@@ -23,6 +23,10 @@ pub unsafe fn register(regs: LanguageGlobs) -> Result<()> {
 }
 
 fn register_impl(regs: LanguageGlobs) -> Result<Vec<(SgLang, Types)>> {
+  // the map has no order of its own: register in name order so that a file
+  // claimed by several languages gets the same language on every run
+  let mut regs: Vec<_> = regs.into_iter().collect();
+  regs.sort_by(|a, b| a.0.cmp(&b.0));
   let mut lang_globs = vec![];
   for (lang, globs) in regs {
     let lang = SgLang::from_str(&lang).with_context(|| EC::UnrecognizableLanguage(lang))?;
